@@ -336,6 +336,52 @@ def target_checks(ck, combos, quick=True, lemmas_for=(("Optical", True),)):
             lemmas(ck, fc, qn, [])
 
 
+def channel_history(ck):
+    """the two channel integrals are evaluated one after the other on the same geometry object: each must be what a freshly thrown object
+    (same random numbers) returns for that channel's arguments alone, in either order, and a repeated call must repeat the result"""
+    from contracts import C02
+
+    rng = np.random.default_rng(ck.seed + 303)
+    fails, nev = [], 0
+    for alt, limb, th in ((525.0, 7.0, 3.0), (33.0, 5.0, 1.5), (5.0, 3.0, 2.0)):
+        n = 4000
+        u = rng.uniform(0.02, 0.98, (4, n))
+
+        def thrown():
+            g = C02.native_geom(alt, 0.3, -1.1, np.radians(limb), np.radians(th), np.radians(360.0))
+            with np.errstate(all="ignore"):
+                g.throw(u.copy())
+            return g
+
+        g0 = thrown()
+        m = g0.event_mask
+        k = int(np.sum(m))
+        if k == 0:
+            continue
+        cv = g0.costhetaTrSubV[m]
+        # optical-like arguments: a per-event cone, narrower than the thrown view angles for about half of the events; radio-like: the scalar
+        # maximum-angle cone, which contains every thrown event
+        opt = (rng.uniform(0.0, 20.0, k), np.clip(cv + rng.normal(0, 2e-4, k), -1, 1), rng.uniform(1e-4, 1e-2, k), 10.0, 1.0, 1.0)
+        rad = (rng.uniform(0.0, 10.0, k), float(np.cos(np.radians(th))), opt[2], 5.0, 1.0, 1.0)
+
+        def call(g, a):
+            with np.errstate(all="ignore"):
+                r = g.mcintegral(a[0].copy(), a[1].copy() if isinstance(a[1], np.ndarray) else a[1], a[2].copy(), *a[3:])
+            return tuple(float(x) for x in r[:3])
+
+        alone = {"optical": call(thrown(), opt), "radio": call(thrown(), rad)}
+        for order in (("optical", "radio"), ("radio", "optical"), ("optical", "optical"), ("radio", "radio")):
+            g = thrown()
+            got = [call(g, opt if c == "optical" else rad) for c in order]
+            nev += 2
+            for c, r in zip(order, got):
+                if not np.allclose(r, alone[c], rtol=1e-12, atol=0, equal_nan=True):
+                    fails.append({"obligation": "bounded.channel_history", "clause": "the integral of a channel does not depend on which channel was integrated before it on the same geometry object",
+                                  "input": {"altitude": alt, "thrown": n, "kept": k, "calls in order": list(order), "seed": ck.seed + 303}, "observed": {"%s after the other call" % c: list(r), "%s alone" % c: list(alone[c])}})
+                    break
+    return {"evaluations": nev, "failures": fails}
+
+
 def run(ck):
     ck.assume("Sigma-lemma library (congruence, linearity, monotonicity, non-negativity, permutation invariance of finite sums) -- standard finite-sum facts, not re-proved here",
               "`exactly` is modulo floating-point summation order (reals)",
@@ -370,3 +416,5 @@ def run(ck):
     FunctionCheck(ck, qn, sc, spec_target("Both", True, False), []).explore().obligations()
 
     wiring(ck)
+    ck.bounded_run("two channel integrals on one geometry object", lambda: channel_history(ck),
+                   design="3 detector altitudes x 4000 thrown events; RegionGeom.mcintegral with optical-like (per-event cone) and radio-like (scalar cone) arguments in the orders O-R, R-O, O-O, R-R on one object vs each alone on a freshly thrown object")
